@@ -42,7 +42,8 @@ Computed(k, i, n) ==
 
 \* ---- units: `kinds` is reused to hold a unit scenario
 \*   [root, mid, leaf : font-size declarations, n, unit : the probed length `width: n unit`]
-FsDecls == {"none", "em2", "pct150", "rem15"}
+\* (ex2 / ch2: font-size: 2ex / 2ch - the font metrics and the font size they scale are those of the PARENT, CSS Values 3, 5.1.1)
+FsDecls == {"none", "em2", "pct150", "rem15", "ex2", "ch2"}
 \* `pre`: another font-relative length (height: 2ex / 2ch) of the probed element, computed BEFORE the probed one: the measured
 \* ratios are cached per font and per unit, and one unit must not answer for the other
 UnitScn == {[root |-> r, mid |-> m, leaf |-> l, n |-> n, unit |-> u, pre |-> "none"] :
@@ -59,7 +60,9 @@ RootFs(s) == CASE s.root = "px10" -> 10 * 381 [] s.root = "px20" -> 20 * 381
                [] s.root = "rem15" -> (3 * Fs0) \div 2   \* rem on the root refers to the initial value
                [] OTHER -> Fs0
 Derive(decl, parentFs, rootFs) == CASE decl = "em2" -> 2 * parentFs [] decl = "pct150" -> (3 * parentFs) \div 2
-                                     [] decl = "rem15" -> (3 * rootFs) \div 2 [] OTHER -> parentFs
+                                     [] decl = "rem15" -> (3 * rootFs) \div 2
+                                     [] decl = "ex2" -> (2 * parentFs * FontRatio("ex")) \div 1000 [] decl = "ch2" -> (2 * parentFs * FontRatio("ch")) \div 1000
+                                     [] OTHER -> parentFs
 MidFs(s)  == Derive(s.mid, RootFs(s), RootFs(s))
 LeafFs(s) == Derive(s.leaf, MidFs(s), RootFs(s))
 Abs381(u) == CASE u = "px" -> 381 [] u = "pt" -> 508 [] u = "pc" -> 6096 [] u = "in" -> 36576 [] u = "cm" -> 14400
